@@ -77,3 +77,51 @@ def src(n) -> str:
 def norm(n) -> str:
     """position-free structural key of an AST node"""
     return ast.dump(n, annotate_fields=False, include_attributes=False)
+
+
+def assigned_value(target) -> Optional[ast.expr]:
+    """the expression assigned to ``target`` (a node in store context), looking through tuple targets
+    (``a.x, a.y = k, v`` assigns ``v`` to ``a.y``); None when the target is not the target of an assignment
+    statement or the right-hand side is not a literal tuple of matching arity"""
+    path = []
+    n = target
+    p = getattr(n, "_parent", None)
+    while isinstance(p, (ast.Tuple, ast.List, ast.Starred)):
+        path.append((p, n))
+        n, p = p, getattr(p, "_parent", None)
+    if isinstance(p, (ast.Assign, ast.AnnAssign)):
+        val = p.value
+    else:
+        return None
+    for tup, child in reversed(path):
+        if isinstance(tup, ast.Starred) or val is None:
+            return None
+        if isinstance(val, (ast.Tuple, ast.List)) and len(val.elts) == len(tup.elts) \
+                and not any(isinstance(e, ast.Starred) for e in list(val.elts) + list(tup.elts)):
+            val = val.elts[[i for i, e in enumerate(tup.elts) if e is child][0]]
+        else:
+            return None
+    return val
+
+
+def iter_stores(fn_node):
+    """(target, value or None, statement) for every assignment in a function body; tuple targets are flattened and
+    paired with the elements of a literal tuple on the right-hand side"""
+    for n in walk_own(fn_node):
+        if isinstance(n, ast.Assign):
+            for t in n.targets:
+                yield from _flatten_target(t, n.value, n)
+        elif isinstance(n, ast.AnnAssign) and n.value is not None:
+            yield n.target, n.value, n
+        elif isinstance(n, ast.AugAssign):
+            yield n.target, None, n
+
+
+def _flatten_target(t, val, stmt):
+    if isinstance(t, (ast.Tuple, ast.List)):
+        lit = isinstance(val, (ast.Tuple, ast.List)) and len(val.elts) == len(t.elts) \
+            and not any(isinstance(e, ast.Starred) for e in list(val.elts) + list(t.elts))
+        for i, el in enumerate(t.elts):
+            yield from _flatten_target(el.value if isinstance(el, ast.Starred) else el, val.elts[i] if lit else None, stmt)
+    else:
+        yield t, val, stmt
